@@ -260,3 +260,6 @@ _rep("C14", "(besides the Q latch being clear unless the SZX says FSET)", "(besi
 _rep("C15", "then emulates 20 frames.", "then emulates 20 frames plus three of a program that polls the AY, keyboard, joystick and mouse ports.")
 
 _rep("C10", "tape assets that hand out a few bytes per read)", "tape assets that hand out a few bytes per read; the shortcut must take the same emulated time wherever the data lies)")
+
+_rep("C07", "PortsTrace judges both tables port by port.", "PortsTrace judges both tables port by port; histories of arbitrary values written to arbitrary ports with the sound on must leave the border colour and the speaker/MIC level heard at the last value that reached the ULA.")
+_rep("C18", "a repeated R13 write restarts the envelope", "for both chip types (AY, YM) a slow attack ramp is a rising staircase of 32 settled amplitudes and fixed volume v sounds like envelope level 2v+1; a repeated R13 write restarts the envelope")
